@@ -112,5 +112,11 @@ Example tie_C20_hashes :
   /\ Src.h_pulse_sequence__default_extend_mapping = Expected.h_pulse_sequence__default_extend_mapping
   /\ Src.h_util_all_array_equal = Expected.h_util_all_array_equal
   /\ Src.h_numeric__get_integrand = Expected.h_numeric__get_integrand
-  /\ Src.h_basis_Basis_from_partial = Expected.h_basis_Basis_from_partial.
+  /\ Src.h_basis_Basis_from_partial = Expected.h_basis_Basis_from_partial
+  /\ Src.h_pulse_sequence_PulseSequence_cache_control_matrix = Expected.h_pulse_sequence_PulseSequence_cache_control_matrix
+  /\ Src.h_pulse_sequence_PulseSequence_cache_filter_function = Expected.h_pulse_sequence_PulseSequence_cache_filter_function
+  /\ Src.h_pulse_sequence_PulseSequence_cache_total_phases = Expected.h_pulse_sequence_PulseSequence_cache_total_phases
+  /\ Src.h_pulse_sequence_PulseSequence_propagator_at_arb_t = Expected.h_pulse_sequence_PulseSequence_propagator_at_arb_t
+  /\ Src.h_basis_Basis_pauli = Expected.h_basis_Basis_pauli
+  /\ Src.h_basis_Basis_ggm = Expected.h_basis_Basis_ggm.
 Proof. repeat split; reflexivity. Qed.
